@@ -233,6 +233,33 @@ def rule_call_args_file(ctx):
                   f"the args file is written (and amended as an output) relative to the caller's directory, but declared as an input and put on the command line relative to workdir={wd}: with a working directory the two records designate different files and the called step waits for ever for an undeclared input", "joined with the step's workdir", where=ctx.where_of(fi, c))
 
 
+def rule_one_label_per_file(ctx):
+    """R-C20-8: a relative path gets the same label whichever way its working directory is spelled.
+
+    The executor always hands a step a *relative* HERE, so everything the step declares itself goes through
+    the relative-workdir arm of translate() and is related to the project root.  A creator that declares the
+    step with an absolute workdir goes through the other arm: unless that arm relates its result to the root
+    as well, the same file in the same directory gets two labels (one absolute, one root-relative).
+    """
+    t = ctx.prog.func("path.translate")
+    n = 0
+    for tr, st in flow.paths_of(t):
+        if st != "return":
+            continue
+        tests = [(e[1], e[2]) for e in tr if e[0] == "test"]
+        if ("path.isabs()", False) not in tests and ("not path.isabs()", True) not in tests:
+            continue  # an absolute path stays what it is
+        n += 1
+        arm = "absolute" if ("workdir.isabs()", True) in tests else "relative"
+        assigns = [e[2] for e in tr if e[0] == "assign" and e[1] == "path"]
+        related = any(".relpath(" in a for a in assigns)
+        ctx.check(related, t.fq, f"a relative path in a working directory given as {arm} path is related to the project root", f"with an {arm} workdir the result is `{assigns[-1] if assigns else '?'}`: step(cmd, workdir=<abs>, inp='in.txt') records <abs>/in.txt while amend(inp='in.txt') inside that step (HERE is always relative) records ../ext/in.txt for the same file, so the step waits for ever on an undeclared input; inside the root the creator's label is absolute and never meets the static declaration", "relpath(root)", where=ctx.where_of(t))
+    if n < 2:
+        raise AnalysisError("translate: the two working-directory arms were not found")
+    ex = ctx.prog.func("executor.Executor._run_command")
+    ctx.check(re.search(r"env\['HERE'\] = str\(Path\(workdir\)\.relpath\(\)\)", ast.unparse(ex.node)) is not None, ex.fq, "a step always receives a relative HERE", "HERE may be absolute", "relpath()")
+
+
 def rule_reserved(ctx):
     """R-C20-3."""
     rc = ctx.prog.func("executor.Executor._run_command")
@@ -297,10 +324,12 @@ RULES = [
     Rule("R-C20-3", "reserved variables", rule_reserved, min_instances=5),
     Rule("R-C20-4", "clean tool translates in and back", rule_clean_tool, min_instances=3),
     Rule("R-C20-7", "api.call writes its args file where the called step reads it", rule_call_args_file, min_instances=1),
+    Rule("R-C20-8", "one label per file, however the working directory is spelled", rule_one_label_per_file, min_instances=3),
     Rule("R-C20-6", "relative paths are computed by relpath, not by cutting a prefix", rule_relative_by_relpath, min_instances=4),
 ]
 
 MUTANTS = [
+    Mutant("relative-arm-not-related-to-root", "path.py", in_function("translate", replace_once("path = (root / here / path).normpath().relpath(root)", "path = (root / here / path).normpath()")), ("R-C20-8",)),
     Mutant("args-file-in-callers-directory", "api.py", in_function("call", replace_once("dumpns(Path(su_workdir) / su_args_file, forwarded)", "dumpns(su_args_file, forwarded)")), ("R-C20-7",)),
     Mutant("label-split-at-last-marker", "step.py", in_function("Step.command_and_workdir", lambda s: s.replace('parts = self.label.split("  # wd=", maxsplit=1)', 'parts = self.label.rsplit("  # wd=", maxsplit=1)') if 'self.label.split("  # wd=", maxsplit=1)' in s else None), ("R-C20-3",)),
     Mutant("root-from-environment", "director.py", in_function("serve", replace_once('"STEPUP_ROOT": str(Path.cwd()),', '"STEPUP_ROOT": os.environ.get("STEPUP_ROOT", str(Path.cwd())),')), ("R-C20-3",)),
